@@ -50,22 +50,50 @@ class _Hooks:
         op = type(node.ops[0])
         flip = {ast.Gt: ast.Lt, ast.GtE: ast.LtE, ast.Lt: ast.Gt, ast.LtE: ast.GtE,
                 ast.Eq: ast.Eq, ast.NotEq: ast.NotEq}
-        if A.is_const(ra):
-            ra, rb = rb, ra
-            op = flip.get(op)
-        if op is None or not A.is_const(rb):
+        if op not in flip:
             return None
-        at = A.atoms_of(ra)
-        if len(at) != 1 or not next(iter(at)).startswith('p_') or \
-                A.key(ra) != A.key(A.sym(next(iter(at)))):
+        # a - b = c0 + k * p with one parameter atom p = 0+ : the sign is that of c0, or of k
+        d = A.sub(ra, rb)
+        at = A.atoms_of(d)
+        if len(at) != 1 or not next(iter(at)).startswith('p_'):
             return None
-        c = A.const_of(rb)
-        # p = 0+ :  p > c <=> c <= 0 ;  p >= c <=> c <= 0 ;  p < c <=> c > 0 ; p == c never
-        if op in (ast.Gt, ast.GtE):
-            return c <= 0
-        if op in (ast.Lt, ast.LtE):
-            return c > 0
-        return op is ast.NotEq
+        try:
+            ds = A.degree_split(d, next(iter(at)))
+        except ValueError:
+            return None
+        if not set(ds) <= {0, 1} or not all(A.is_const(v) for v in ds.values()):
+            return None
+        c0 = A.const_of(ds[0]) if 0 in ds else 0
+        k = A.const_of(ds[1]) if 1 in ds else 0
+        sign = (c0 > 0) - (c0 < 0) if c0 != 0 else (k > 0) - (k < 0)
+        if sign == 0:
+            return None
+        return {ast.Gt: sign > 0, ast.GtE: sign > 0, ast.Lt: sign < 0, ast.LtE: sign < 0,
+                ast.Eq: False, ast.NotEq: True}[op]
+
+    def call(self, ev, q, node, args, kwargs, env):
+        return self.abs_call(ev, q, args)
+
+    def abs_call(self, ev, q, args):
+        # |c0 + k p| for one infinitesimal parameter atom p = 0+
+        if q in ('builtins.abs', 'numpy.abs', 'numpy.fabs', 'numpy.absolute') and len(args) == 1 \
+                and isinstance(args[0], Rat):
+            A = ev.A
+            d = args[0]
+            at = A.atoms_of(d)
+            if A.is_const(d):
+                return A.const(abs(A.const_of(d)))
+            if len(at) == 1 and next(iter(at)).startswith('p_'):
+                try:
+                    ds = A.degree_split(d, next(iter(at)))
+                except ValueError:
+                    return NotImplemented
+                if set(ds) <= {0, 1} and all(A.is_const(v) for v in ds.values()):
+                    c0 = A.const_of(ds[0]) if 0 in ds else 0
+                    k = A.const_of(ds[1]) if 1 in ds else 0
+                    neg = c0 < 0 or (c0 == 0 and k < 0)
+                    return A.neg(d) if neg else d
+        return NotImplemented
 
     def branch(self, ev, st, env):
         if isinstance(st, ast.If) and len(st.body) == 1 and isinstance(st.body[0], ast.Raise) \
@@ -130,21 +158,36 @@ def _nz(A, arr):
     return {i: x for i, x in arr.entries.items() if not A.is_zero(x)}
 
 
-def _check_mask(ctx, cls, m, k_mask, fail):
-    """evaluate one mask; append (aspect, text) to `fail`"""
+def _check_mask(ctx, cls, m, k_mask, fail, form='array'):
+    """evaluate one mask; append (aspect, text) to `fail`.  form: 'array' (3-vectors / 3x3 of
+    per-element values), 'none' (every parameter None: everything disabled), 'scalar' (one
+    positive float per parameter: the same value for all axes)"""
     repo = ctx.repo
     b, w, n, s = m
     A = Alg()
     ev = SymEval(repo, A, hooks=_Hooks())
     ev.mutable_lists = True
-    bs = _arr(A, 'bs', (3,), b, k_mask)
-    no = _arr(A, 'no', (3,), n, k_mask)
-    bw = _arr(A, 'bw', (3,), w, k_mask)
-    sm = _arr(A, 'sm', (3, 3), s, k_mask)
+    if form == 'scalar':
+        def same(name, shape):
+            out = SArray(shape, {})
+            for i in out.indices():
+                out.entries[i] = A.sym('p_' + name)
+            return out
+        bs, no, bw, sm = same('bs', (3,)), same('no', (3,)), same('bw', (3,)), same('sm', (3, 3))
+        actual = {'bias_sd': A.sym('p_bs'), 'noise': A.sym('p_no'), 'bias_walk': A.sym('p_bw'),
+                  'scale_misal_sd': A.sym('p_sm')}
+    else:
+        bs = _arr(A, 'bs', (3,), b, k_mask)
+        no = _arr(A, 'no', (3,), n, k_mask)
+        bw = _arr(A, 'bw', (3,), w, k_mask)
+        sm = _arr(A, 'sm', (3, 3), s, k_mask)
+        actual = {'bias_sd': bs, 'noise': no, 'bias_walk': bw, 'scale_misal_sd': sm}
+        if form == 'none':
+            actual = {k: None for k in actual}
     init = cls.methods['__init__']
     names = init.params[1:]
     kw = {}
-    for p_, v in (('bias_sd', bs), ('noise', no), ('bias_walk', bw), ('scale_misal_sd', sm)):
+    for p_, v in actual.items():
         if p_ not in names:
             raise AnalysisError('EstimationModel.__init__ has no parameter %s' % p_)
         kw[p_] = v
@@ -350,17 +393,22 @@ def sm_model(ctx):
     masks = _masks()
     ctx.floor('SM-MODEL', len(masks), 60, 'enable masks')
     failures = {}
-    for k, m in enumerate(masks):
+    off = ((0,) * 3, (0,) * 3, (0,) * 3, (0,) * 9)
+    on = ((1,) * 3, (1,) * 3, (1,) * 3, (1,) * 9)
+    runs = [(m, 'array') for m in masks] + [(off, 'none'), (on, 'scalar')]
+    for k, (m, form) in enumerate(runs):
         fail = []
         try:
-            _check_mask(ctx, cls, m, k, fail)
+            _check_mask(ctx, cls, m, k, fail, form)
         except RuntimeFailure as e:
             fail.append(('states', 'raises at run time: %s' % e))
         except Unsupported as e:
-            raise AnalysisError('EstimationModel not analysable for the mask %s: %s'
-                                % (_mask_text(m), e))
+            raise AnalysisError('EstimationModel not analysable for the mask %s (%s form): %s'
+                                % (_mask_text(m), form, e))
         for asp, txt in fail:
-            failures.setdefault(asp, []).append((m, txt))
+            failures.setdefault(asp, []).append(
+                (m, txt if form == 'array' else '(parameters given as %s) %s'
+                 % ('None' if form == 'none' else 'one float each', txt)))
     init = cls.methods['__init__']
     where = {'output': cls.methods['output_matrix'], 'estimates': cls.methods['update_estimates']}
     for asp, text in ASPECTS:
@@ -372,3 +420,118 @@ def sm_model(ctx):
                    % (text, len({m_ for m_, _ in bad}), len(masks),
                       _mask_text(bad[0][0]) if bad else '',
                       bad[0][1] if bad else ''))
+
+
+# ---------------------------------------------------------------------------- SM-PARAMS
+def sm_params(ctx):
+    """The simulator's parameter table, executed: the statements of Parameters.apply from the
+    creation of `self.data_frame` on are run for enable masks (an enabled bias / walk / transform
+    deviation is a positive infinitesimal atom, a disabled one exactly nominal)."""
+    from ..expr import Rec, Obj
+    ctx.rule('SM-PARAMS', "Parameters.apply: the parameter table has exactly one column 'bias_<a>' "
+             "per axis with a bias or a bias walk (holding the simulated bias of that axis) and one "
+             "column 'sm_<out><in>' per transform element that differs from the identity (holding "
+             "the deviation), for a covering family of masks - the names the estimator gives the "
+             'same terms (SM-MODEL)')
+    repo = ctx.repo
+    cls = repo.klass('inertial_sensor.Parameters')
+    ap = cls.methods.get('apply')
+    ctx.need(ap is not None, 'Parameters.apply missing')
+    ctx.touch(ap)
+    body = ap.node.body
+    start = [i for i, st in enumerate(body) if isinstance(st, ast.Assign) and
+             norm_text(st.targets[0]) == 'self.data_frame']
+    ctx.need(len(start) == 1, 'Parameters.apply: creation of self.data_frame not found')
+    tail = [st for st in body[start[0]:] if not isinstance(st, ast.Return)]
+    # the local holding the simulated bias series: the 2-D local indexed [:, axis] in the tail
+    series = {n.value.id for st in tail for n in ast.walk(st)
+              if isinstance(n, ast.Subscript) and isinstance(n.value, ast.Name) and
+              isinstance(n.slice, ast.Tuple) and len(n.slice.elts) == 2}
+    ctx.need(len(series) == 1, 'Parameters.apply: bias series local not identified (%s)'
+             % sorted(series))
+    sname = next(iter(series))
+    masks = []
+    g = random.Random(7)
+
+    def add(b, w, s):
+        m = (tuple(b), tuple(w), tuple(s))
+        if m not in masks:
+            masks.append(m)
+    add([0] * 3, [0] * 3, [0] * 9)
+    add([1] * 3, [1] * 3, [1] * 9)
+    for k in range(15):
+        f = [0] * 15
+        f[k] = 1
+        add(f[:3], f[3:6], f[6:])
+    for _ in range(20):
+        f = [int(g.random() < 0.5) for _ in range(15)]
+        add(f[:3], f[3:6], f[6:])
+
+    class H(_Hooks):
+        def call(self, ev, q, node, args, kwargs, env):
+            if q == 'pandas.DataFrame' and not args and set(kwargs) <= {'index'}:
+                return Rec({}, 'frame')
+            return self.abs_call(ev, q, args)
+    bad = []
+    for m in masks:
+        b, w, s = m
+        A = Alg()
+        ev = SymEval(repo, A, hooks=H())
+        ev.mutable_lists = True
+        ev.cur, ev.depth = ap, 1
+        o = Obj(cls)
+        tr = SArray((3, 3), {})
+        for k in range(9):
+            nom = A.const(1 if k // 3 == k % 3 else 0)
+            tr.entries[(k // 3, k % 3)] = A.add(nom, A.sym('p_t%d%d' % (k // 3, k % 3))) \
+                if s[k] else nom
+        o.attrs['transform'] = tr
+        o.attrs['bias'] = SArray((3,), {(i,): (A.sym('p_b%d' % i) if b[i] else A.const(0))
+                                        for i in range(3)})
+        o.attrs['bias_walk'] = SArray((3,), {(i,): (A.sym('p_w%d' % i) if w[i] else A.const(0))
+                                             for i in range(3)})
+        env = {'self': o, 'readings': Rec({'c0': A.sym('r0'), 'c1': A.sym('r1'),
+                                           'c2': A.sym('r2')}, 'frame'),
+               sname: SArray((3,), {(i,): A.sym('series_%d' % i) for i in range(3)}, None, True)}
+        try:
+            ev.exec_block(tail, env)
+        except RuntimeFailure as e:
+            bad.append((m, 'raises at run time: %s' % e))
+            continue
+        except Unsupported as e:
+            raise AnalysisError('Parameters.apply (table part) not analysable: %s' % e)
+        df = o.attrs.get('data_frame')
+        if not isinstance(df, Rec):
+            raise AnalysisError('Parameters.apply: self.data_frame is not a table')
+        want = {}
+        for i in range(3):
+            if b[i] or w[i]:
+                want['bias_' + XYZ[i]] = A.sym('series_%d' % i)
+        for k in range(9):
+            if s[k]:
+                want['sm_' + XYZ[k // 3] + XYZ[k % 3]] = A.sym('p_t%d%d' % (k // 3, k % 3))
+        got = df.cols
+        if set(got) != set(want):
+            bad.append((m, 'columns %s, expected %s' % (sorted(got), sorted(want))))
+            continue
+        for c in want:
+            v = got[c]
+            if isinstance(v, SArray) and v.shape == ():
+                v = v.get(())
+            if not isinstance(v, Rat) or not A.eq(v, want[c]):
+                bad.append((m, "column '%s' holds %s, expected %s"
+                            % (c, A.key(v)[:60] if isinstance(v, Rat) else v, A.key(want[c]))))
+                break
+    ctx.floor('SM-PARAMS', len(masks), 30, 'masks')
+
+    def mt(m):
+        b, w, s = m
+        return 'bias=%s walk=%s transform deviations=%s' % (
+            ''.join(XYZ[i] for i in range(3) if b[i]) or '-',
+            ''.join(XYZ[i] for i in range(3) if w[i]) or '-',
+            ','.join(XYZ[k // 3] + XYZ[k % 3] for k in range(9) if s[k]) or '-')
+    ctx.ob('SM-PARAMS', not bad, None, 'parameter table columns and values (%d masks)' % len(masks),
+           f=ap, node=body[start[0]], key='table',
+           why='the parameter table of Parameters.apply is wrong for %d of %d masks, first: [%s] %s'
+               % (len({m_ for m_, _ in bad}), len(masks), mt(bad[0][0]) if bad else '',
+                  bad[0][1] if bad else ''))
